@@ -238,8 +238,59 @@ func c05Group(c *core.Ctx) {
 	}
 }
 
+// c05Append: a log whose appender failed is never skipped. On the error edge of the appender call, neither the next log of
+// the response nor the end of the function is reachable without calling the appender for this log again (the retry
+// handler decides when to give up — by stopping the node, not by dropping the event).
+func c05Append(c *core.Ctx, rule string) {
+	fn := c.MustFn(rule, "sync", "EVMDownloaderImplementation", "getEventsByBlockRangeWithRetry")
+	if fn == nil {
+		return
+	}
+	sx := core.NewSymx()
+	var app *ssa.Call
+	core.Instrs(fn, func(i ssa.Instruction) {
+		cl, ok := i.(*ssa.Call)
+		if !ok || cl.Call.IsInvoke() {
+			return
+		}
+		if strings.Contains(sx.Of(cl.Call.Value).String(), "d.appender[") {
+			app = cl
+		}
+	})
+	construct := "sync.(*EVMDownloaderImplementation).getEventsByBlockRangeWithRetry#appender-error-retried"
+	if app == nil {
+		c.Undecide(rule, construct, fn.Pos(), "appender call not found")
+		return
+	}
+	errEdges := core.NilEdgesRes(fn, app, false)
+	if len(errEdges) == 0 {
+		c.Violate(rule, construct, app.Pos(), "the appender's error is not tested")
+		return
+	}
+	var bad *core.Found
+	for _, e := range errEdges {
+		start, env0 := core.AfterEdge(e)
+		f := (&core.Walk{Stop: func(i ssa.Instruction) bool { return i == ssa.Instruction(app) }, Target: func(i ssa.Instruction) bool {
+			if _, isRet := i.(*ssa.Return); isRet {
+				return true
+			}
+			p, isPhi := i.(*ssa.Phi)
+			return isPhi && p.Comment == "rangeindex"
+		}}).From(start, env0)
+		if f != nil {
+			bad = f
+		}
+	}
+	if bad != nil {
+		c.Violate(rule, construct, bad.Instr.Pos(), "after the appender failed, the next log or the end of the function is reached without appending this log again: the event is dropped while its block counts as downloaded ("+core.PathStr(bad)+")")
+	} else {
+		c.Hold(rule, construct, "a failed appender is always called again for the same log")
+	}
+}
+
 func c05Retry(c *core.Ctx) {
 	const rule = "C05-retry"
+	c05Append(c, rule)
 	fn := c.MustFn(rule, "sync", "EVMDriver", "handleNewBlock")
 	if fn == nil {
 		return
